@@ -24,7 +24,7 @@ GRID_QUICK = dict(NQ=2, TotalSet="{0,1000,2000,3500}", KnSet="{0,1}", KD=1, DesS
 GRID_THOROUGH_2 = dict(NQ=2, TotalSet="{0,1000,2000,3000,4500,6000}", KnSet="{0,3}", KD=2, DesSet="{0,1000,2000,-1}",
                        LimSet="{-1,1000,3000}", WSet="{0,1,2}", PrioSet="{0,1}", ReqSet="{0,500,3000,4000}", UseSet="{0}")
 GRID_THOROUGH_3 = dict(NQ=3, TotalSet="{1000,2500,4000}", KnSet="{0,1}", KD=1, DesSet="{0,1000,-1}", LimSet="{-1,2000}",
-                       WSet="{0,1,2}", PrioSet="{0,1}", ReqSet="{0,1500,3000}", UseSet="{0}")
+                       WSet="{1,2}", PrioSet="{0,1}", ReqSet="{1500,3000}", UseSet="{0}")      # 48^3 x 6 = 663 552 inputs
 
 DUMMY = dict(NQ=1, TotalSet="{}", KnSet="{}", KD=1, DesSet="{}", LimSet="{}", WSet="{}", PrioSet="{}", ReqSet="{}", UseSet="{}")
 
